@@ -125,7 +125,10 @@ func (s *appStream) boot(r *tr.Rng) {
 	cfg := appsim.Config{ChainID: s.chain, Seed: seed, NumVoters: nv, NumValidators: nval, ShareProposerKey: shared,
 		MaxValidators: int64(maxv), ElectingPeriod: time.Duration(tr.Pick(r, 30, 60, 600)) * time.Second,
 		AcceptProposerTimeout: time.Duration(tr.Pick(r, 0, 10, 20)) * time.Second, BlockInterval: 5 * time.Second,
-		MempoolMaxTxs: -1, PruneEverything: true, RewardRemain: big.NewInt(1e18)}
+		MempoolMaxTxs: -1, PruneEverything: true, RewardRemain: big.NewInt(1e18),
+		// proposal streams: half of the chains carry heads built "now", like a live network (the next proposal is then
+		// built within the same second as its parent)
+		WallClockPayloads: strings.HasPrefix(s.profile, "app-proposal") && r.Chance(50)}
 	// short signing windows, jail and unlock periods so that downtime jailing, re-activation and unlock maturity
 	// happen within the histories the streams can afford (the module defaults need thousands of blocks)
 	win := int64(tr.Pick(r, 4, 6, 10, 1200))
@@ -778,6 +781,43 @@ func (s *appStream) genBlock(r *tr.Rng) {
 			}
 		}
 	}
+	// a failed transaction in isolation (C19: "a rejected or failed transaction leaves every module's state exactly as it
+	// was"): when the block's last transaction fails, the block is also run without it; the four modules' states after the
+	// two runs must be the same.  Both are trial runs dropped by a restart; the block proper follows.
+	var isoOp *tr.Op
+	if !gasShort && !malformed && s.twin == nil && newStatus == "VALID" && fcuStatus == "VALID" && len(txs) > 1 &&
+		r.Chance(pick(!s.rel.view().rel.ProposerAccepted, 60, 12)) { // most often while a new proposer is still waiting to be accepted
+		if s.processed {
+			sim.EngineBarrier()
+		}
+		blockTime := sim.NextTime()
+		restart := func() {
+			sim.EngineBarrier()
+			if err := sim.Restart(); err != nil {
+				panic(err)
+			}
+			sim.SetNextTime(blockTime)
+		}
+		probe, perr := sim.Finalize(sim.ProposerAddr(proposerIdx), txs, votes, evidence)
+		if perr == nil && probe.TxResults[len(txs)-1].Code != 0 {
+			with := s.dumpLines()
+			restart()
+			if _, err2 := sim.Finalize(sim.ProposerAddr(proposerIdx), txs[:len(txs)-1], votes, evidence); err2 == nil {
+				without := s.dumpLines()
+				same, detail := "1", "-"
+				for i := range with {
+					if with[i].res != without[i].res {
+						same = "0"
+						detail = []string{"rel", "btc", "lock", "goat"}[i] + ":" + diffTokens(without[i].res, with[i].res)
+						detail = strings.ReplaceAll(strings.ReplaceAll(detail, " ", "_"), "=", ":")
+						break
+					}
+				}
+				isoOp = tr.NewOp("failed-tx-in-isolation/same="+same, "a.failiso", "height", height, "same", same, "detail", detail)
+			}
+		}
+		restart()
+	}
 	var rawTxs []*pendingTx
 	if malformed {
 		for n := r.Intn(3); n > 0; n-- { // undecodable transactions inside the block
@@ -995,6 +1035,9 @@ func (s *appStream) genBlock(r *tr.Rng) {
 	sim.Engine.ClearFaults()
 	if detOp != nil {
 		s.emit(detOp, "ok")
+	}
+	if isoOp != nil {
+		s.emit(isoOp, "ok")
 	}
 	if !halt && ((strings.HasPrefix(s.profile, "app-export") && s.blocks%12 == 0) || (s.profile == "app" && s.blocks%97 == 0)) {
 		eo := s.exportImport(r)
